@@ -101,6 +101,7 @@ package tacquito
 //@ func (a *AuthenStart) Validate() (err error)
 //@   requires a != nil
 //@   ensures[C02,C04] (err == nil) == (valid.AuthenStart(*a) && fits.AuthenStart(*a))
+//@   ensures[C19] typeOf(err) != *BadSecretErr
 
 //@ func (a *AuthenStart) MarshalBinary() (res []byte, err error)
 //@   requires a != nil
@@ -116,14 +117,18 @@ package tacquito
 //@   ensures[C04] err == nil ==> valid.AuthenStart(*a) && fits.AuthenStart(*a)
 //@   ensures[C04] err == nil ==> inside(a.User, data) && inside(a.Port, data) && inside(a.RemAddr, data) && inside(a.Data, data)
 //@   ensures[C04] len(data) < 8 ==> err != nil
+//@   ensures[C19] len(data) < 8 ==> typeOf(err) != *BadSecretErr
+//@   ensures[C19] full.AuthenStart(data) ==> ((typeOf(err) == *BadSecretErr) == overrun.AuthenStart(data))
 //@   also
 //@   ghost f AuthenStart
 //@   requires wire.AuthenStart(f, data) && valid.AuthenStart(f) && fits.AuthenStart(f)
 //@   ensures[C01] err == nil && *a == f
+//@   ensures[C19] clean.AuthenStart(data)
 
 //@ func (a *AuthenReply) Validate() (err error)
 //@   requires a != nil
 //@   ensures[C02,C04] (err == nil) == (valid.AuthenReply(*a) && fits.AuthenReply(*a))
+//@   ensures[C19] typeOf(err) != *BadSecretErr
 
 //@ func (a *AuthenReply) MarshalBinary() (res []byte, err error)
 //@   requires a != nil
@@ -139,14 +144,18 @@ package tacquito
 //@   ensures[C04] err == nil ==> valid.AuthenReply(*a) && fits.AuthenReply(*a)
 //@   ensures[C04] err == nil ==> inside(a.ServerMsg, data) && inside(a.Data, data)
 //@   ensures[C04] len(data) < 5 ==> err != nil
+//@   ensures[C19] len(data) < 5 ==> typeOf(err) != *BadSecretErr
+//@   ensures[C19] full.AuthenReply(data) ==> ((typeOf(err) == *BadSecretErr) == overrun.AuthenReply(data))
 //@   also
 //@   ghost f AuthenReply
 //@   requires wire.AuthenReply(f, data) && valid.AuthenReply(f) && fits.AuthenReply(f)
 //@   ensures[C01] err == nil && *a == f
+//@   ensures[C19] clean.AuthenReply(data)
 
 //@ func (a *AuthenContinue) Validate() (err error)
 //@   requires a != nil
 //@   ensures[C02,C04] (err == nil) == (valid.AuthenContinue(*a) && fits.AuthenContinue(*a))
+//@   ensures[C19] typeOf(err) != *BadSecretErr
 
 //@ func (a *AuthenContinue) MarshalBinary() (res []byte, err error)
 //@   requires a != nil
@@ -162,10 +171,13 @@ package tacquito
 //@   ensures[C04] err == nil ==> valid.AuthenContinue(*a) && fits.AuthenContinue(*a)
 //@   ensures[C04] err == nil ==> inside(a.UserMessage, data) && inside(a.Data, data)
 //@   ensures[C04] len(data) < 5 ==> err != nil
+//@   ensures[C19] len(data) < 5 ==> typeOf(err) != *BadSecretErr
+//@   ensures[C19] full.AuthenContinue(data) ==> ((typeOf(err) == *BadSecretErr) == overrun.AuthenContinue(data))
 //@   also
 //@   ghost f AuthenContinue
 //@   requires wire.AuthenContinue(f, data) && valid.AuthenContinue(f) && fits.AuthenContinue(f)
 //@   ensures[C01] err == nil && *a == f
+//@   ensures[C19] clean.AuthenContinue(data)
 
 // ---------------------------------------------------------------------------
 // accounting.go
@@ -174,6 +186,7 @@ package tacquito
 //@ func (a *AcctReply) Validate() (err error)
 //@   requires a != nil
 //@   ensures[C02,C04] (err == nil) == (valid.AcctReply(*a) && fits.AcctReply(*a))
+//@   ensures[C19] typeOf(err) != *BadSecretErr
 
 //@ func (a *AcctReply) MarshalBinary() (res []byte, err error)
 //@   requires a != nil
@@ -189,10 +202,13 @@ package tacquito
 //@   ensures[C04] err == nil ==> valid.AcctReply(*a) && fits.AcctReply(*a)
 //@   ensures[C04] err == nil ==> inside(a.ServerMsg, data) && inside(a.Data, data)
 //@   ensures[C04] len(data) < 5 ==> err != nil
+//@   ensures[C19] len(data) < 5 ==> typeOf(err) != *BadSecretErr
+//@   ensures[C19] full.AcctReply(data) ==> ((typeOf(err) == *BadSecretErr) == overrun.AcctReply(data))
 //@   also
 //@   ghost f AcctReply
 //@   requires wire.AcctReply(f, data) && valid.AcctReply(f) && fits.AcctReply(f)
 //@   ensures[C01] err == nil && *a == f
+//@   ensures[C19] clean.AcctReply(data)
 
 // ---------------------------------------------------------------------------
 // packet.go
@@ -235,6 +251,7 @@ package tacquito
 //@ func (a *AuthorRequest) Validate() (err error)
 //@   requires a != nil
 //@   ensures[C02,C04] (err == nil) == (valid.AuthorRequest(*a) && fits.AuthorRequest(*a))
+//@   ensures[C19] typeOf(err) != *BadSecretErr
 //@   loop 2 invariant -1 <= rangeindex && rangeindex < len(a.Args)
 //@   loop 2 invariant forall j int :: 0 <= j && j <= rangeindex ==> validArg(a.Args[j])
 
@@ -276,10 +293,13 @@ package tacquito
 //@   ensures[C04] err == nil ==> inside(a.User, data) && inside(a.Port, data) && inside(a.RemAddr, data)
 //@        && (forall k int :: 0 <= k && k < len(a.Args) ==> inside(a.Args[k], data))
 //@   ensures[C04] len(data) < 8 ==> err != nil
+//@   ensures[C19] len(data) < 8 ==> typeOf(err) != *BadSecretErr
+//@   ensures[C19] full.AuthorRequest(data) ==> ((typeOf(err) == *BadSecretErr) == overrun.AuthorRequest(data))
 //@   also
 //@   ghost f AuthorRequest
 //@   requires wire.AuthorRequest(f, data) && valid.AuthorRequest(f) && fits.AuthorRequest(f)
 //@   ensures[C01] err == nil
+//@   ensures[C19] clean.AuthorRequest(data)
 //@   ensures[C01] a.Method == f.Method && a.PrivLvl == f.PrivLvl && a.Type == f.Type && a.Service == f.Service
 //@   ensures[C01] a.User == f.User && a.Port == f.Port && a.RemAddr == f.RemAddr
 //@   ensures[C01] len(a.Args) == len(f.Args) && (forall k int :: 0 <= k && k < len(f.Args) ==> len(a.Args[k]) == len(f.Args[k]))
@@ -288,10 +308,14 @@ package tacquito
 //@   loop 1 invariant buf == data[min(8 + i, len(data)):]
 //@   loop 1 invariant forall j int :: 0 <= j && j < i ==> argLens[j] == (8 + j < len(data) ? data[8 + j] : 0)
 //@   loop 1 invariant totalArgLen == sumInts(argLens, i) && 0 <= totalArgLen && totalArgLen <= 255 * i
+//@   loop 1 invariant[C19] len(data) >= 8 + argCnt ==> sumInts(argLens, i) == sumInts(data[8:], i)
+//@   loop 1 invariant forall j int :: 0 <= j && j < i ==> 0 <= argLens[j] && argLens[j] <= 255
 //@   loop 1 invariant[case2] forall j int :: 0 <= j && j <= i ==> sumInts(argLens, j) == sumLen(f.Args, j)
 //@   loop 1 invariant[case2] forall j int :: 0 <= j && j < i ==> argLens[j] == len(f.Args[j])
 //@   loop 2 invariant -1 <= rangeindex && rangeindex < len(argLens)
 //@   loop 2 invariant len(a.Args) == rangeindex + 1
+//@   loop 2 invariant[C19] 0 <= sumInts(argLens, rangeindex + 1)
+//@   loop 2 invariant[C19] sumLen(a.Args, rangeindex + 1) == min(len(data), 8 + argCnt + userLen + portLen + remAddrLen + sumInts(argLens, rangeindex + 1)) - min(len(data), 8 + argCnt + userLen + portLen + remAddrLen)
 //@   loop 2 invariant buf == data[min(len(data), 8 + argCnt + userLen + portLen + remAddrLen + sumInts(argLens, rangeindex + 1)):]
 //@   loop 2 invariant forall j int :: 0 <= j && j <= rangeindex ==>
 //@        window(a.Args[j], data, min(len(data), 8 + argCnt + userLen + portLen + remAddrLen + sumInts(argLens, j)),
@@ -306,6 +330,7 @@ package tacquito
 //@ func (a *AuthorReply) Validate() (err error)
 //@   requires a != nil
 //@   ensures[C02,C04] (err == nil) == (valid.AuthorReply(*a) && fits.AuthorReply(*a))
+//@   ensures[C19] typeOf(err) != *BadSecretErr
 //@   loop 2 invariant -1 <= rangeindex && rangeindex < len(a.Args)
 //@   loop 2 invariant forall j int :: 0 <= j && j <= rangeindex ==> validArg(a.Args[j])
 
@@ -348,10 +373,13 @@ package tacquito
 //@   ensures[C04] err == nil ==> inside(a.ServerMsg, data) && inside(a.Data, data)
 //@        && (forall k int :: 0 <= k && k < len(a.Args) ==> inside(a.Args[k], data))
 //@   ensures[C04] len(data) < 6 ==> err != nil
+//@   ensures[C19] len(data) < 6 ==> typeOf(err) != *BadSecretErr
+//@   ensures[C19] full.AuthorReply(data) ==> ((typeOf(err) == *BadSecretErr) == overrun.AuthorReply(data))
 //@   also
 //@   ghost f AuthorReply
 //@   requires wire.AuthorReply(f, data) && valid.AuthorReply(f) && fits.AuthorReply(f)
 //@   ensures[C01] err == nil
+//@   ensures[C19] clean.AuthorReply(data)
 //@   ensures[C01] a.Status == f.Status && a.ServerMsg == f.ServerMsg && a.Data == f.Data
 //@   ensures[C01] len(a.Args) == len(f.Args) && (forall k int :: 0 <= k && k < len(f.Args) ==> len(a.Args[k]) == len(f.Args[k]))
 //@   ensures[C01] forall k int, i int :: 0 <= k && k < len(f.Args) && 0 <= i && i < len(f.Args[k]) ==> a.Args[k][i] == f.Args[k][i]
@@ -359,10 +387,14 @@ package tacquito
 //@   loop 1 invariant buf == data[min(6 + i, len(data)):]
 //@   loop 1 invariant forall j int :: 0 <= j && j < i ==> argLens[j] == (6 + j < len(data) ? data[6 + j] : 0)
 //@   loop 1 invariant totalArgLen == sumInts(argLens, i) && 0 <= totalArgLen && totalArgLen <= 255 * i
+//@   loop 1 invariant[C19] len(data) >= 6 + argCnt ==> sumInts(argLens, i) == sumInts(data[6:], i)
+//@   loop 1 invariant forall j int :: 0 <= j && j < i ==> 0 <= argLens[j] && argLens[j] <= 255
 //@   loop 1 invariant[case2] forall j int :: 0 <= j && j <= i ==> sumInts(argLens, j) == sumLen(f.Args, j)
 //@   loop 1 invariant[case2] forall j int :: 0 <= j && j < i ==> argLens[j] == len(f.Args[j])
 //@   loop 2 invariant -1 <= rangeindex && rangeindex < len(argLens)
 //@   loop 2 invariant len(a.Args) == rangeindex + 1
+//@   loop 2 invariant[C19] 0 <= sumInts(argLens, rangeindex + 1)
+//@   loop 2 invariant[C19] sumLen(a.Args, rangeindex + 1) == min(len(data), 6 + argCnt + serverMsgLen + dataLen + sumInts(argLens, rangeindex + 1)) - min(len(data), 6 + argCnt + serverMsgLen + dataLen)
 //@   loop 2 invariant buf == data[min(len(data), 6 + argCnt + serverMsgLen + dataLen + sumInts(argLens, rangeindex + 1)):]
 //@   loop 2 invariant forall j int :: 0 <= j && j <= rangeindex ==>
 //@        window(a.Args[j], data, min(len(data), 6 + argCnt + serverMsgLen + dataLen + sumInts(argLens, j)),
@@ -381,6 +413,7 @@ package tacquito
 //@ func (a *AcctRequest) Validate() (err error)
 //@   requires a != nil
 //@   ensures[C02,C04] (err == nil) == (valid.AcctRequest(*a) && fits.AcctRequest(*a))
+//@   ensures[C19] typeOf(err) != *BadSecretErr
 //@   loop 2 invariant -1 <= rangeindex && rangeindex < len(a.Args)
 //@   loop 2 invariant forall j int :: 0 <= j && j <= rangeindex ==> validAcctArg(a.Args[j])
 
@@ -422,10 +455,13 @@ package tacquito
 //@   ensures[C04] err == nil ==> inside(a.User, data) && inside(a.Port, data) && inside(a.RemAddr, data)
 //@        && (forall k int :: 0 <= k && k < len(a.Args) ==> inside(a.Args[k], data))
 //@   ensures[C04] len(data) < 9 ==> err != nil
+//@   ensures[C19] len(data) < 9 ==> typeOf(err) != *BadSecretErr
+//@   ensures[C19] full.AcctRequest(data) ==> ((typeOf(err) == *BadSecretErr) == overrun.AcctRequest(data))
 //@   also
 //@   ghost f AcctRequest
 //@   requires wire.AcctRequest(f, data) && valid.AcctRequest(f) && fits.AcctRequest(f)
 //@   ensures[C01] err == nil
+//@   ensures[C19] clean.AcctRequest(data)
 //@   ensures[C01] a.Flags == f.Flags && a.Method == f.Method && a.PrivLvl == f.PrivLvl && a.Type == f.Type && a.Service == f.Service
 //@   ensures[C01] a.User == f.User && a.Port == f.Port && a.RemAddr == f.RemAddr
 //@   ensures[C01] len(a.Args) == len(f.Args) && (forall k int :: 0 <= k && k < len(f.Args) ==> len(a.Args[k]) == len(f.Args[k]))
@@ -434,10 +470,14 @@ package tacquito
 //@   loop 1 invariant buf == data[min(9 + i, len(data)):]
 //@   loop 1 invariant forall j int :: 0 <= j && j < i ==> argLens[j] == (9 + j < len(data) ? data[9 + j] : 0)
 //@   loop 1 invariant totalArgLen == sumInts(argLens, i) && 0 <= totalArgLen && totalArgLen <= 255 * i
+//@   loop 1 invariant[C19] len(data) >= 9 + argCnt ==> sumInts(argLens, i) == sumInts(data[9:], i)
+//@   loop 1 invariant forall j int :: 0 <= j && j < i ==> 0 <= argLens[j] && argLens[j] <= 255
 //@   loop 1 invariant[case2] forall j int :: 0 <= j && j <= i ==> sumInts(argLens, j) == sumLen(f.Args, j)
 //@   loop 1 invariant[case2] forall j int :: 0 <= j && j < i ==> argLens[j] == len(f.Args[j])
 //@   loop 2 invariant -1 <= rangeindex && rangeindex < len(argLens)
 //@   loop 2 invariant len(a.Args) == rangeindex + 1
+//@   loop 2 invariant[C19] 0 <= sumInts(argLens, rangeindex + 1)
+//@   loop 2 invariant[C19] sumLen(a.Args, rangeindex + 1) == min(len(data), 9 + argCnt + userLen + portLen + remAddrLen + sumInts(argLens, rangeindex + 1)) - min(len(data), 9 + argCnt + userLen + portLen + remAddrLen)
 //@   loop 2 invariant buf == data[min(len(data), 9 + argCnt + userLen + portLen + remAddrLen + sumInts(argLens, rangeindex + 1)):]
 //@   loop 2 invariant forall j int :: 0 <= j && j <= rangeindex ==>
 //@        window(a.Args[j], data, min(len(data), 9 + argCnt + userLen + portLen + remAddrLen + sumInts(argLens, j)),
@@ -551,6 +591,7 @@ package tacquito
 //@   ensures[C03,C05] let p0 = old(ghost.inPos) in ((err == nil && res.Header.Flags mod 2 == 0) ==>
 //@        (forall i int :: {res.Body[i]} 0 <= i && i < len(res.Body) ==> res.Body[i] == xor8(instream(p0 + 12 + i), padAt(*res.Header, c.secret, i))))
 //@   ensures[C07,C19] err == nil ==> ghost.nwrites == old(ghost.nwrites)
+//@   ensures[C19] err == nil ==> (res.Header.Flags mod 2 == 1 || !allOverrun(res.Header.Type, res.Body))
 //@   ensures[C07,C19] ghost.nwrites == old(ghost.nwrites) || ghost.nwrites == old(ghost.nwrites) + 1
 
 // ---------------------------------------------------------------------------
@@ -667,3 +708,18 @@ package tacquito
 //@   ensures len(a.Args) == len(args)
 //@   loop 1 invariant -1 <= rangeindex && rangeindex < len(args)
 //@   loop 1 invariant len(v) == rangeindex + 1
+
+//@ func (c crypter) detectBadSecret(p *Packet) (reply *Packet, err error)
+//@   requires p != nil && p.Header != nil
+//@   modifies p.Header.SeqNo, p.Header.Length
+//@   ensures[C19] err == nil
+//@   ensures[C19] old(p.Header.Flags) mod 2 == 1 ==> reply == nil
+//@   ensures[C19] (old(p.Header.Flags) mod 2 == 0 && allOverrun(p.Header.Type, p.Body)) ==> reply != nil
+//@   ensures[C19] someClean(p.Header.Type, p.Body) ==> reply == nil
+//@   ensures[C19] reply == nil ==> p.Header.SeqNo == old(p.Header.SeqNo) && p.Header.Length == old(p.Header.Length)
+//@   ensures[C19,C07] reply != nil ==> reply.Header == p.Header && reply.Header.SeqNo == 1 && reply.Body != nil && len(reply.Body) <= 4294967295
+//@   ensures reply != nil ==> fresh(reply.Body)
+//@   ensures[C19] (reply != nil && p.Header.Type == 1) ==> reply.Body[0] == AuthenStatusError
+//@   ensures[C19] (reply != nil && p.Header.Type == 2) ==> reply.Body[0] == AuthorStatusError
+//@   ensures[C19] (reply != nil && p.Header.Type == 3) ==> reply.Body[4] == AcctReplyStatusError
+//@   ensures fresh(reply)
